@@ -214,8 +214,15 @@ func BackgroundExpiry(e0 *Env, store lungo.Store) {
 	if err := engine.Commit(txn); err != nil {
 		return
 	}
-	pre, evsBefore, _ := e.Obs(nil)
-	time.Sleep(400 * time.Millisecond)
-	e.recordExpire(pre, evsBefore, now, true, "background")
+	// the state before the pass is what this commit published (a pass may already run while we look at it);
+	// the pass is awaited by watching for the next published catalog, not by a fixed sleep
+	published := txn.Catalog()
+	pre, evsBefore, _ := e.Obs(published)
+	deadline := time.Now().Add(15 * time.Second)
+	for engine.Catalog() == published && time.Now().Before(deadline) {
+		time.Sleep(5 * time.Millisecond)
+	}
+	time.Sleep(150 * time.Millisecond) // further passes must not change anything more
+	e.recordExpire(pre, evsBefore, now, engine.Catalog() != published, "background")
 	e0.Findings = append(e0.Findings, e.Findings...)
 }
